@@ -1,37 +1,40 @@
 #!/usr/bin/env python3
-"""Run the checks against behaviour-preserving changes (false-alarm measurement).
-usage: devtools/run_benign.py            every /tmp/mut/out3/<ID>/patch<i>.diff without a result yet
-Each patch is applied to the scratch worktree /tmp/mutrun/<ID> (never /repo); the 208 tests must pass with it;
-./check <ID> with AK_PY_VERIF_REPO=<scratch> must exit 0 without a VIOLATION line."""
+"""Run the checks against the kept behaviour-preserving changes (false-alarm measurement).
+usage: devtools/run_benign.py [--redo] [<ID> ...]     every /verif/benign/<ID>-b<i>/patch.diff (without a result yet)
+Each patch is applied to the scratch worktree /tmp/mutrun/<ID> (never /repo; created on demand, remove it afterwards with
+`git -C /repo worktree remove --force /tmp/mutrun/<ID>`); the 208 tests must pass with it; ./check <ID> with
+AK_PY_VERIF_REPO=<scratch> must exit 0 without a VIOLATION line.  Overwrites evidence/ and replays/ of the property:
+re-run devtools/run_all.sh afterwards."""
 import glob, json, os, subprocess, sys, time
 sys.path.insert(0, os.path.dirname(__file__))
 from run_seeded import sh, run_check
 
-for d in sorted(glob.glob('/tmp/mut/out3/C*')):
-    pid = os.path.basename(d)
-    only = [a for a in sys.argv[1:] if not a.startswith('--')]
+ROOT = os.path.join(os.path.dirname(os.path.dirname(os.path.abspath(__file__))), 'benign')
+only = [a for a in sys.argv[1:] if not a.startswith('--')]
+for d in sorted(glob.glob(ROOT + '/C*-b*')):
+    name = os.path.basename(d)
+    pid = name.split('-')[0]
     if only and pid not in only:
         continue
-    for patch in sorted(glob.glob(d + '/patch*.diff')):
-        i = os.path.basename(patch)[5:-5]
-        res_file = f"{d}/result{i}.json"
-        if os.path.exists(res_file) and '--redo' not in sys.argv:
-            continue
-        wt = f"/tmp/mutrun/{pid}"
-        if not os.path.isdir(wt):
-            sh("git -C /repo worktree prune")
-            sh(f"git -C /repo worktree add -q --detach {wt} HEAD")
-        head = sh("git -C /repo rev-parse HEAD")[1].strip()
-        sh(f"git checkout -q -- . && git clean -fdq && git checkout -q --detach {head}", cwd=wt)
-        rc, o = sh(f"git apply {patch}", cwd=wt)
-        res = {'id': f"{pid}-b{i}", 'applies': rc == 0}
-        if rc == 0:
-            rc, o = sh("/venv/bin/python -m pytest -q -p no:cacheprovider -x tests 2>&1 | tail -2", cwd=wt)
-            res['tests'] = o.strip().splitlines()[-1] if o.strip() else ''
-            if ' passed' in res['tests'] and 'failed' not in res['tests']:
-                code, lines, dt = run_check(pid, wt)
-                res.update(check_exit=code, lines=lines[:8], wall_s=dt, quiet=(code == 0))
-        sh("git checkout -q -- . && git clean -fdq", cwd=wt)
-        json.dump(res, open(res_file, 'w'), indent=1)
-        print(res['id'], 'applies' if res['applies'] else 'NO-APPLY', res.get('tests', '')[:20], 'exit', res.get('check_exit'),
-              'QUIET' if res.get('quiet') else 'ALARM/OTHER', (res.get('lines') or [''])[0][:120])
+    patch = d + '/patch.diff'
+    res_file = d + '/result.json'
+    if os.path.exists(res_file) and '--redo' not in sys.argv:
+        continue
+    wt = f"/tmp/mutrun/{pid}"
+    if not os.path.isdir(wt):
+        sh("git -C /repo worktree prune")
+        sh(f"git -C /repo worktree add -q --detach {wt} HEAD")
+    head = sh("git -C /repo rev-parse HEAD")[1].strip()
+    sh(f"git checkout -q -- . && git clean -fdq && git checkout -q --detach {head}", cwd=wt)
+    rc, o = sh(f"git apply {patch}", cwd=wt)
+    res = {'id': name, 'applies': rc == 0}
+    if rc == 0:
+        rc, o = sh("/venv/bin/python -m pytest -q -p no:cacheprovider -x tests 2>&1 | tail -2", cwd=wt)
+        res['tests'] = o.strip().splitlines()[-1] if o.strip() else ''
+        if ' passed' in res['tests'] and 'failed' not in res['tests']:
+            code, lines, dt = run_check(pid, wt)
+            res.update(check_exit=code, lines=lines[:8], wall_s=dt, quiet=(code == 0))
+    sh("git checkout -q -- . && git clean -fdq", cwd=wt)
+    json.dump(res, open(res_file, 'w'), indent=1)
+    print(res['id'], 'applies' if res['applies'] else 'NO-APPLY', res.get('tests', '')[:20], 'exit', res.get('check_exit'),
+          'QUIET' if res.get('quiet') else 'ALARM/OTHER', (res.get('lines') or [''])[0][:120])
